@@ -23,6 +23,7 @@ READER = "chess::Game::new"
 
 def run(ctx):
     F = ctx.facts
+    _FACTS[0] = F
     D = discr_map(F)
     t1_letters(ctx, F, D)
     em, sym = emissions(F.fn(WRITER), F, recv="result")
@@ -242,8 +243,12 @@ def writer_fields(ctx, F, em):
               found=[hir.fmt(x[2], 200) for x in fm])
 
 
+_FACTS = [None]
+
+
 def _match_table(nf):
     """{variant path or literal: literal} for a ("match", scrut, arms) normal form with literal bodies."""
+    nf = hir.resolve_consts(nf, _FACTS[0])
     if not (isinstance(nf, tuple) and nf and nf[0] == "match"):
         return None
     out = {}
@@ -258,6 +263,7 @@ def _match_table(nf):
 
 
 def reader(ctx, F):
+    _FACTS[0] = F
     fn = F.fn(READER)
     body = fn["hir"]["body"]
     env = hir.Env(fn["hir"], F)
